@@ -26,6 +26,9 @@ pub use rdata::TYPE;
 mod resource_record;
 pub use resource_record::ResourceRecord;
 
+#[cfg(simple_dns_verif)]
+pub mod verif;
+
 use bitflags::bitflags;
 use std::convert::TryFrom;
 
